@@ -328,7 +328,8 @@ pub fn worker(spec: &PropSpec, tier: Tier, seed: u64, shard: usize, nshards: usi
     let _ = std::fs::remove_file(&part_path);
     let known: Vec<String> = load_known().into_iter().filter(|k| k.property == spec.id).map(|k| k.key).collect();
     let t0 = Instant::now();
-    let total = spec.cases[tier.ix()];
+    // (VERIF_CASES scales the generated search down for trying the machinery out; never set by a registered command)
+    let total = std::env::var("VERIF_CASES").ok().and_then(|s| s.parse().ok()).unwrap_or(spec.cases[tier.ix()]);
     let cases = total / nshards + usize::from(shard < total % nshards);
     let st = RefCell::new(WorkerStats {
         evaluations: 0,
@@ -483,6 +484,156 @@ pub fn worker(spec: &PropSpec, tier: Tier, seed: u64, shard: usize, nshards: usi
     0
 }
 
+
+// ----------------------------------------------------------------------
+// coverage-guided stage (thorough tier): libFuzzer over the same decoder and oracles
+
+/// Runs `nproc` independent libFuzzer processes of the fuzz target (built by ./check, path in
+/// VFUZZ_BIN) on this property with a fixed number of executions each. The semantic oracle is
+/// inside the target: a failure writes a case file and aborts. Returns the evidence fragment.
+fn fuzz_stage(spec: &PropSpec, args: &RunArgs, violations: &mut Vec<(String, String)>, inconclusive: &mut Vec<String>) -> Value {
+    let Ok(bin) = std::env::var("VFUZZ_BIN") else { return Value::Null };
+    let bin = PathBuf::from(bin);
+    if !bin.exists() {
+        return Value::Null;
+    }
+    let id = spec.id;
+    let out = out_dir();
+    let root = out.join("fuzz").join(id);
+    let _ = std::fs::remove_dir_all(&root);
+    let runs: u64 = std::env::var("VFUZZ_RUNS").ok().and_then(|s| s.parse().ok()).unwrap_or(250_000);
+    let nproc = args.workers;
+    let t0 = Instant::now();
+    let mut children = vec![];
+    for k in 0..nproc {
+        let dir = root.join(format!("w{k}"));
+        let corpus = dir.join("corpus");
+        let _ = std::fs::create_dir_all(&corpus);
+        // seeds: the saved replays of this property and a few pseudo-random choice sequences
+        if let Ok(rd) = std::fs::read_dir(verif_dir().join("replays").join(id)) {
+            for (i, e) in rd.filter_map(|e| e.ok()).enumerate() {
+                if let Some(cf) = read_case_file(&e.path()) {
+                    let _ = std::fs::write(corpus.join(format!("replay{i}")), &cf.bytes);
+                }
+            }
+        }
+        let mut x = derive_seed(args.seed, id, k, "fuzz");
+        for i in 0..8 {
+            let len = 16 + (splitmix(x) % (spec.len[0] as u64).max(17)) as usize;
+            let mut b = Vec::with_capacity(len);
+            for _ in 0..len {
+                x = splitmix(x);
+                // skewed towards small bytes, like the choice decoder's "simplest first" mapping
+                b.push(if x & 3 == 0 { (x >> 8) as u8 } else { ((x >> 8) as u8) & 0x3f });
+            }
+            let _ = std::fs::write(corpus.join(format!("rand{i}")), &b);
+        }
+        let seed = (derive_seed(args.seed, id, k, "fuzz") % 0x7fff_fffe) + 1;
+        let log = std::fs::File::create(dir.join("log")).ok();
+        let mut cmd = Command::new(&bin);
+        cmd.arg(&corpus)
+            .arg(format!("-runs={runs}"))
+            .arg(format!("-seed={seed}"))
+            .arg("-len_control=0")
+            .arg(format!("-max_len={}", spec.len[0]))
+            .arg("-timeout=120")
+            .arg("-rss_limit_mb=6000")
+            .arg("-print_final_stats=1")
+            .arg(format!("-artifact_prefix={}/", dir.display()))
+            .env("VFUZZ_PROP", id)
+            .env("VFUZZ_TAG", format!("{k}"))
+            .env("VERIF_DIR", verif_dir())
+            .stdout(Stdio::null());
+        match log {
+            Some(f) => {
+                cmd.stderr(f);
+            }
+            None => {
+                cmd.stderr(Stdio::null());
+            }
+        }
+        match cmd.spawn() {
+            Ok(c) => children.push((k, c, dir)),
+            Err(e) => inconclusive.push(format!("could not start fuzz process {k}: {e}")),
+        }
+    }
+    let mut execs = 0u64;
+    let mut corpus_units = 0u64;
+    let mut nontrivial = 0u64;
+    let mut sample = Value::Null;
+    let mut crashes = 0u64;
+    for (k, mut c, dir) in children {
+        let status = loop {
+            match c.try_wait() {
+                Ok(Some(s)) => break Some(s),
+                Ok(None) => {
+                    if t0.elapsed() > args.timeout {
+                        let _ = c.kill();
+                        let _ = c.wait();
+                        break None;
+                    }
+                    std::thread::sleep(Duration::from_millis(50));
+                }
+                Err(_) => break None,
+            }
+        };
+        let stats = out.join(format!("{id}.fuzz.{k}.stats"));
+        if let Some(v) = std::fs::read_to_string(&stats).ok().and_then(|t| serde_json::from_str::<Value>(&t).ok()) {
+            execs += v["execs"].as_u64().unwrap_or(0);
+            nontrivial += v["distinct_nontrivial"].as_u64().unwrap_or(0);
+            if sample.is_null() && v["sample"].as_array().map_or(false, |a| !a.is_empty()) {
+                sample = v["sample"].clone();
+            }
+        }
+        let _ = std::fs::remove_file(&stats);
+        corpus_units += std::fs::read_dir(dir.join("corpus")).map(|d| d.count() as u64).unwrap_or(0);
+        match status {
+            None => inconclusive.push(format!("fuzz process {k} exceeded the time limit")),
+            Some(s) if s.success() => {}
+            Some(s) => {
+                crashes += 1;
+                let case = out.join("failures").join(format!("{id}-fuzz-{k}.case"));
+                let artifacts: Vec<PathBuf> = std::fs::read_dir(&dir)
+                    .map(|d| d.filter_map(|e| e.ok().map(|e| e.path())).filter(|p| p.file_name().map_or(false, |n| { let n = n.to_string_lossy(); n.starts_with("crash-") || n.starts_with("timeout-") || n.starts_with("oom-") })).collect())
+                    .unwrap_or_default();
+                let log = std::fs::read_to_string(dir.join("log")).unwrap_or_default();
+                if log.contains("VFUZZ-FAILURE") && case.exists() {
+                    // shrink it with the deterministic delta debugger, keeping the failure key
+                    if let Some(cf) = read_case_file(&case) {
+                        let small = ddmin(spec, Tier::Quick, cf.bytes.clone(), &cf.key, 4000);
+                        let o2 = (spec.run)(&small, Tier::Quick);
+                        if let Some(f) = o2.failures.iter().find(|f| f.prop == id && failure_key(f) == cf.key) {
+                            write_case_file(&case, id, &cf.key, Tier::Quick, &small, &f.msg, &o2.trace, "fuzz");
+                        }
+                        violations.push((cf.key.clone(), case.to_string_lossy().into()));
+                    }
+                } else if let Some(a) = artifacts.iter().find(|p| p.file_name().unwrap().to_string_lossy().starts_with("crash-")) {
+                    // the process died inside the engine (abort, stack overflow): re-run alone
+                    let bytes = std::fs::read(a).unwrap_or_default();
+                    write_case_file(&case, id, &format!("{id}/abort"), Tier::Quick, &bytes, &format!("fuzz process died: {s}"), &[], "rel");
+                    let (code, _) = replay_in_subprocess(&args.bins[0].1, id, &case, Duration::from_secs(120));
+                    let dies_again = !matches!(code, Some(0) | Some(1) | Some(2));
+                    if dies_again && spec.abort_is_violation {
+                        violations.push((format!("{id}/abort"), case.to_string_lossy().into()));
+                    } else if code == Some(1) {
+                        violations.push((format!("{id}/after-abort"), case.to_string_lossy().into()));
+                    } else {
+                        inconclusive.push(format!("fuzz process {k} died ({s}); input saved to {} (dies again in the release build: {dies_again})", case.display()));
+                    }
+                } else {
+                    inconclusive.push(format!("fuzz process {k} ended with {s} (timeout / out of memory / no artifact); see {}", dir.join("log").display()));
+                }
+            }
+        }
+    }
+    json!({
+        "engine": "libFuzzer (cargo-fuzz, -s none, debug assertions on), in-target oracle",
+        "processes": nproc, "runs_per_process": runs, "executions": execs,
+        "distinct_nontrivial_at_least": nontrivial, "final_corpus_units": corpus_units,
+        "failing_processes": crashes, "sample": sample, "wall_s": t0.elapsed().as_secs_f64(),
+    })
+}
+
 // ----------------------------------------------------------------------
 // parent
 
@@ -569,6 +720,9 @@ pub fn run_parent(spec: &PropSpec, args: &RunArgs) -> i32 {
             println!("note: known finding no longer reproduces: {}", k.what);
         }
     }
+
+    // 2b. coverage-guided stage (thorough tier, when ./check built the fuzz target)
+    let fuzz = if args.tier == Tier::Thorough { fuzz_stage(spec, args, &mut violations, &mut inconclusive) } else { Value::Null };
 
     // 3. generated search
     let mut parts: Vec<Value> = vec![];
@@ -712,6 +866,7 @@ pub fn run_parent(spec: &PropSpec, args: &RunArgs) -> i32 {
             "known_finding_hits_excluded": known_hits,
             "failures_of_other_properties_seen": foreign,
             "inconclusive": inconclusive,
+            "coverage_guided_fuzzing": fuzz,
         },
         "assumptions": spec.assumptions,
         "wall_s": t0.elapsed().as_secs_f64(),
